@@ -18,6 +18,7 @@ import (
 	"bytes"
 	"encoding/binary"
 	"errors"
+	"fmt"
 	"io"
 
 	"google.golang.org/protobuf/proto"
@@ -27,12 +28,19 @@ import (
 // same meaning in the gRPC-Web, gRPC-HTTP2, and Connect protocols.
 const flagEnvelopeCompressed = 0b00000001
 
-var errSpecialEnvelope = errorf(
-	CodeUnknown,
+// errSpecialEnvelope marks an envelope with protocol-specific flags. It's a
+// sentinel for errors.Is; what callers get is a fresh *Error from
+// newErrSpecialEnvelope, because an *Error carries mutable metadata and may
+// reach user code.
+var errSpecialEnvelope = fmt.Errorf(
 	"final message has protocol-specific flags: %w",
 	// User code checks for end of stream with errors.Is(err, io.EOF).
 	io.EOF,
 )
+
+func newErrSpecialEnvelope() *Error {
+	return NewError(CodeUnknown, errSpecialEnvelope)
+}
 
 // envelope is a block of arbitrary bytes wrapped in gRPC and Connect's framing
 // protocol.
@@ -174,7 +182,7 @@ func (r *envelopeReader) Unmarshal(message any) *Error {
 		if _, err := r.last.Data.ReadFrom(data); err != nil {
 			return errorf(CodeUnknown, "copy final envelope: %w", err)
 		}
-		return errSpecialEnvelope
+		return newErrSpecialEnvelope()
 	}
 
 	if err := r.codec.Unmarshal(data.Bytes(), message); err != nil {
